@@ -440,6 +440,14 @@ func (h *harness) settle() {
 	rt.Seed((h.r.Seed^0x7f4a7c15)*0x9e3779b97f4a7c15 + h.act*0xbf58476d1ce4e5b9 + h.sub*0x94d049bb133111eb)
 }
 
+// pendingDials lists undecided dials by dialer name: two clients that dial in the same window arrive in an order
+// the Go scheduler picks, which must not matter.
+func (h *harness) pendingDials() []*simnet.Dial {
+	ds := h.net.Pending()
+	sort.Slice(ds, func(a, b int) bool { return ds[a].Addr < ds[b].Addr })
+	return ds
+}
+
 // dbg prints volatile detail (byte counts, which keep-alive travelled when) for a human; it is NOT part of the
 // hashed event log.
 func (h *harness) dbg(format string, a ...interface{}) {
@@ -744,14 +752,14 @@ func simulate(r *core.R) {
 			if err != nil {
 				i.exited = true
 				r.Probe("client_start_failed")
-				r.Logf("  %s: Start failed", i.name)
+				h.dbg("%s: Start failed", i.name)
 			}
 			h.mu.Unlock()
 			if err == nil {
 				i.client.Finished.Wait()
 				h.mu.Lock()
 				i.exited = true
-				r.Logf("  %s: client finished", i.name)
+				h.dbg("%s: client finished", i.name)
 				h.mu.Unlock()
 			}
 		}()
@@ -1112,10 +1120,10 @@ func simulate(r *core.R) {
 				deliverOne(ps, d, frag)
 			}
 		}},
-		{30, func() { // decide the oldest pending dial
+		{30, func() { // decide the first pending dial (by client name)
 			refuse := src.Chance(pRefuse, "refuse")
 			blackhole := src.Chance(pBlackhole, "dial_blackhole")
-			pend := h.net.Pending()
+			pend := h.pendingDials()
 			if len(pend) == 0 {
 				r.Logf("dial decision: nothing pending")
 				return
@@ -1288,7 +1296,7 @@ func simulate(r *core.R) {
 			h.sub = 0
 			h.settle()
 			did := false
-			for _, d := range h.net.Pending() {
+			for _, d := range h.pendingDials() {
 				acceptDial(d)
 				h.settle()
 				did = true
